@@ -9,8 +9,8 @@ import (
 	"sort"
 	"strings"
 
-	"sonicverif/sim"
 	shimnet "sonicverif/shim/net"
+	"sonicverif/sim"
 )
 
 // Failure describes one oracle violation. Sig identifies the violation class
@@ -78,8 +78,8 @@ func (c *Ctx) Assert(ok bool, format string, a ...any) {
 // Scenario is one workload+oracle for a property.
 type Scenario struct {
 	Name     string
-	Weight   int  // relative share of random runs (0 = directed only)
-	Directed int  // number of directed variants (run with Variant=0..Directed-1 before random ones)
+	Weight   int // relative share of random runs (0 = directed only)
+	Directed int // number of directed variants (run with Variant=0..Directed-1 before random ones)
 	Run      func(c *Ctx, variant int)
 	Thorough bool // only in the thorough tier
 }
